@@ -13,8 +13,9 @@ CONSTANTS
   NKeys <- NKeysAll
   Knowns <- KnownsAll
   DestOwns <- DestOwnsAll
+  Laters <- LatersAll
   TamperKinds <- AllTamperKinds
   MaxTamper = 2
   Budget = 2
-INVARIANTS TypeOK NonInterference Complete RefuseForeign RefuseNoHeader RefuseBadOrigin RefuseBadBody RefuseBadKey RefuseChanged RefuseBadSig Emit_
+INVARIANTS TypeOK NonInterference ReportStable Complete RefuseForeign RefuseNoHeader RefuseBadOrigin RefuseBadBody RefuseBadKey RefuseChanged RefuseBadSig Emit_
 CHECK_DEADLOCK FALSE
